@@ -709,6 +709,15 @@ class DMETProblemDecomposition(ProblemDecomposition):
             float: The chemical potential found by the optimizer.
         """
 
-        result = scipy.optimize.newton(func, var_params, tol=1e-5)
+        try:
+            result = scipy.optimize.newton(func, var_params, tol=1e-5)
+        except RuntimeError:
+            # The secant step is undefined when the electron number does not depend on the chemical potential
+            # (e.g. equivalent fragments by symmetry, or a single fragment): the initial guess is a solution
+            # if it already satisfies the electron-number constraint.
+            if abs(func(var_params)) < 1e-5:
+                result = np.complex128(var_params) if isinstance(var_params, complex) else np.float64(var_params)
+            else:
+                raise
 
         return result.real
